@@ -165,7 +165,7 @@ seed("C12.R1.revert-D10", "C12", "C12.R1:opcode:0x1c", "touch yields no frame",
      (CODEC, "                Ok(Some(BinaryRequest::NotSupported(binary::Request {\n                    header: self.header,\n                })))", "                Ok(None)"))
 seed("C12.R2.setq-answers", "C12", "C12.R2:quiet:SetQuietly", "SetQuietly always answered",
      (HANDLER, "                let response = self.set(set_req, &mut response_header);\n                into_quiet_mutation(response)", "                let response = self.set(set_req, &mut response_header);\n                Some(response)"))
-seed("C12.R2.getq-filter-drops-status", "C12", "C12.R2:into_quiet_get", "quiet get silent on every error",
+seed("C12.R2.getq-filter-drops-status", "C12", "C12.R2:quiet:GetQuietly", "quiet get silent on every error",
      (HANDLER, "        if response.header.status == CacheError::NotFound as u16 {\n            return None;\n        }", "        if response.header.status != 0 {\n            return None;\n        }"))
 seed("C12.R2.loud-delete-filtered", "C12", "C12.R2:loud:Delete", "loud delete goes through the quiet filter",
      (HANDLER, "                Some(self.delete(delete_request, &mut response_header))", "                into_quiet_mutation(self.delete(delete_request, &mut response_header))"))
@@ -220,7 +220,7 @@ seed("C11.R2.get-echoes-key", "C11", "C11.R2:", "plain get echoes the key",
      (HANDLER, "opcode == binary::Command::GetKey as u8 || opcode == binary::Command::GetKeyQuiet as u8", "opcode == binary::Command::GetKey as u8 || opcode == binary::Command::GetKeyQuiet as u8 || opcode == binary::Command::Get as u8"))
 seed("C11.R2.counter-4-bytes", "C11", "C11.R2:", "counter value written as 4 bytes",
      (CODEC, "            BinaryResponse::Increment(response) | BinaryResponse::Decrement(response) => {\n                dst.put_u64(response.value);\n            }\n        }\n        ResponseMessage", "            BinaryResponse::Increment(response) | BinaryResponse::Decrement(response) => {\n                dst.put_u32(response.value as u32);\n            }\n        }\n        ResponseMessage"))
-seed("C11.R3.swap-body-opaque", "C11", "C11.R3:header:#6", "body_length and opaque swapped on the wire",
+seed("C11.R3.swap-body-opaque", "C11", "header:#6", "body_length and opaque swapped on the wire",
      (CODEC, "        dst.put_u32(header.body_length);\n        dst.put_u32(header.opaque);", "        dst.put_u32(header.opaque);\n        dst.put_u32(header.body_length);"))
 seed("C11.R4.status-shifted", "C11", "C11.R4:", "status code shifted",
      (CODEC, "    response_header.status = err as u16;", "    response_header.status = (err as u16) << 1;"))
